@@ -162,7 +162,7 @@ func (m *mixed) Tier(tier string) (uint64, int64) {
 		return 320, 300 // one replica: cheap
 	}
 	if m.id == "C20" {
-		return 128, 300
+		return 192, 300
 	}
 	return 64, 300
 }
@@ -221,6 +221,11 @@ func (m *mixed) Gen(w *e.World, r *e.RNG) e.Step {
 	extra := []string{"blk", "traffic", "crash", "stall", "join", "govevm"}
 	for _, n := range extra {
 		weights = append(weights, int(f["w_"+n]))
+	}
+	// right after governance touched the EVM parameters, probe what depends on them
+	// (fork-gated opcode, precompile addresses), before and after the next restarts
+	if h, ok := w.Ext["evm_gov_height"].(int64); ok && w.Height-h <= 12 && r.Chance(0.3) {
+		return e.Step{K: "tx", Op: "eth_probe", A: r.Intn(nAcc(w)), B: w.AnyAcct(r), N: []int64{[]int64{2, 2, 0, 1, 3}[r.Intn(5)]}}
 	}
 	k := r.Weighted(weights)
 	if k < len(names) {
@@ -298,6 +303,7 @@ func (m *mixed) Exec(w *e.World, st *e.Step) *e.Violation {
 			w.DoCosmos(a, e.TxOpts{}, &ucdaotypes.MsgFund{Amount: e.Native(e.BigS("25000000000000000000")), Depositor: a.Acc.String()})
 		}
 		if msgs := evmGovMsgs(w, st.NArg(0), st.NArg(1)); msgs != nil {
+			w.Ext["evm_gov_height"] = w.Height
 			govPass(w, msgs)
 			if st.NArg(0) == 5 {
 				w.Stats.Fault("software_upgrade_planned")
